@@ -21,3 +21,6 @@ open MinLex
 #print axioms C18_f64_round_down
 #print axioms C18_f32_round_down
 #print axioms C18_f64_exp_m64_outside_contract
+#print axioms C18_round_callback
+#print axioms rneTrunc_parity
+#print axioms C18_round_ordering
